@@ -16,11 +16,11 @@ def _lfs(ctx):
 
 
 def run(ctx):
-    storehist.run_histories(ctx, ctx.scale(160, 3000), ctx.scale(30, 60), _lfs(ctx))
+    storehist.run_histories(ctx, ctx.scale(160, 3000), ctx.scale(30, 60), _lfs(ctx), judge=('C07',))
 
 
 def search(ctx, hints):
-    storehist.run_histories(ctx, ctx.scale(1500, 6000), 60, [2, 3, 4, 5, 10], with_model=False)
+    storehist.run_histories(ctx, ctx.scale(1500, 6000), 60, [2, 3, 4, 5, 10], with_model=False, judge=('C07',))
 
 
 def replay(ctx, data):
